@@ -312,6 +312,9 @@ class AberratedMieLensCalculator(MieLensCalculator):
 
     def _calculate_aberrated_phase(self):
         coeffs_high_to_low = np.reshape(self.spherical_aberration, -1)
+        if coeffs_high_to_low.size == 0:
+            # no aberration coefficients at all: no aberration
+            coeffs_high_to_low = np.zeros(1)
         aberrated_phase = (
             self._pupil_x_squared**2 *
             legval(self._pupil_x_squared, coeffs_high_to_low))
